@@ -68,6 +68,8 @@ type SchemaRecordField struct {
 }
 
 func (s *Schema) UnmarshalJSONFrom(dec *jsontext.Decoder) error {
+	// The result is the document's schema, whatever s held before.
+	*s = Schema{}
 	switch dec.PeekKind() {
 	case '"':
 		token, err := dec.ReadToken()
